@@ -3,6 +3,7 @@ from __future__ import annotations
 
 import collections
 import hashlib
+import json
 import random
 
 from simlib import bootstrap, dsgen, eread, sched as S
@@ -66,7 +67,10 @@ def gen_case(rng, tier, index):
             # the default, repeating stream: the selection holds in every
             # epoch (three epochs' worth of examples are taken)
             "repeat": rng.random() < 0.3})
-    return {"hist": hist, "sels": sels, "seed": rng.getrandbits(32)}
+    case = {"hist": hist, "sels": sels, "seed": rng.getrandbits(32)}
+    # equal metadata spelt with another key order inside nested dicts
+    case["nested_reorder"] = rng.random() < 0.5
+    return case
 
 
 def make_filter(sel, table):
@@ -101,7 +105,19 @@ def model_filter(sel, table):
 
 
 def canon_key(meta):
-    return tuple(sorted((k, repr(v)) for k, v in meta.items()))
+    # equal JSON values = one group, whatever the key order at any depth
+    return json.dumps(meta, sort_keys=True, ensure_ascii=True)
+
+
+NESTED_VALUE = {"k": "c", "deep": {"x": 1, "y": [2, {"p": 1, "q": 2}],
+                                   "z": {"b": 1, "a": 2}}}
+
+
+def _writes(hist):
+    for ses in hist["sessions"]:
+        yield from ses.get("writes", [])
+        for ws in ses.get("writers", []):
+            yield from ws
 
 
 def expected_selection(sel, table, n, limit_applies):
@@ -129,7 +145,25 @@ ACCEPTS_LIMIT = {"sync": True, "conc": True, "tfdata": True, "async": False,
 
 
 def run_case(case):
+    saved = dsgen.META_VALUES[4]
+    try:
+        if case.get("nested_reorder"):
+            dsgen.META_VALUES[4] = NESTED_VALUE
+        return _run_case(case)
+    finally:
+        dsgen.META_VALUES[4] = saved
+
+
+def _run_case(case):
     hist = case["hist"]
+    if case.get("nested_reorder"):
+        import copy
+        hist = copy.deepcopy(hist)
+        for w in _writes(hist):
+            m = w.get("meta")
+            if (m and m[0] in ("val", "same") and
+                    m[1] % len(dsgen.META_VALUES) == 4 and w["id"] % 2):
+                m[0] = "nreord"
     st = hist["structure"]
     out = {"ok": True}
     h = hashlib.sha1()
